@@ -39,6 +39,27 @@ def _value_leaves(t):
     return {t}
 
 
+def _norm_casts(t):
+    """x.astype(T) with T = (T1 if x.dtype == D else x.dtype) is (x.astype(T1) if x.dtype == D else x): a conversion to the array's own type is
+    the identity; np.dtype(T) names the type T.  Rewritten bottom-up so that the rules below see one spelling of a conditional narrowing."""
+    def rw(n):
+        if n.op in ("const", "sym"):
+            return n
+        args = tuple(rw(a) if isinstance(a, T) else a for a in n.args)
+        n = T(n.op, *args) if any(a is not b for a, b in zip(args, n.args)) else n
+        if n.op == "call" and n.args[0] == "numpy.dtype" and len(n.args) == 2 and n.args[1].op == "const" and str(n.args[1].args[0]).startswith("ref:numpy."):
+            return n.args[1]  # np.dtype(np.float32) names the type; np.dtype(<a value that may be None>) does not (np.dtype(None) is float64)
+        if n.op == "call" and n.args[0] == ".astype" and len(n.args) >= 3 and n.args[2].op == "ite":
+            x, (c, a, b) = n.args[1], n.args[2].args
+            own = lambda d: d.op == "call" and str(d.args[0]) in (".dtype", "dtype") and len(d.args) >= 2 and d.args[1] == x
+            if own(b):
+                return mk("ite", c, call(".astype", x, a), x)
+            if own(a):
+                return mk("ite", c, x, call(".astype", x, b))
+        return n
+    return rw(t)
+
+
 def _casts(t):
     """target types of the astype calls on the value path of `t`"""
     if t.op == "ite":
@@ -68,6 +89,10 @@ def o111(ctx):
                 ctx.finding(RD, f"dispatch of .{ext}", f"a .{ext} file must be read with {FAMILY[ext]} (found {libs})", fn, m)
             rc_ = _casts(t)
             ctx.count(1)
+            if rc_ and getattr(ctx, "prop", "C11") != "C11" and not any(c_.op == "call" and c_.args[0] == "reinterpret" for c_ in rc_):
+                # for the properties that only READ maps through this function the element type is not part of the statement; whether a conversion
+                # keeps every value (a widening) is not decided here
+                raise Unsupported(f"cryomap.read converts the data of a .{ext} file to {tm.show(rc_[0])[:60]}: whether every value survives is not decided", fn)
             if rc_:
                 ctx.finding(RD, f"type handling for .{ext}", f"the voxels must be returned with the values and type the file holds (data_type only on request); "
                             f"the data are converted / re-interpreted as {tm.show(rc_[0])[:60]}", fn, m)
@@ -87,6 +112,16 @@ def o111(ctx):
                 raise Unsupported(f"library write call for .{ext} not found", fw)
             ev = evs[0]
             ctx.count(1, {"write": f".{ext}", "transpose": tr, "library": ev.name})
+            # every map is written: no way out of write() before the library call that depends on the voxel values (an all-zero map is a map)
+            early = [e for e in it.events if e.kind == "return" and e.name == WR and it.events.index(e) < it.events.index(ev)
+                     and any(tm.has_sym(g_, "volume") for g_ in e.guards)]
+            guarded = [g_ for g_ in ev.guards if tm.has_sym(g_, "volume") and not tm.contains(g_, lambda n: n.op == "call" and str(n.args[0]) in (".ndim", ".dtype", "dtype", ".shape"))]
+            ctx.count(1)
+            if early or guarded:
+                nd_ = early[0].node if early else ev.node
+                ctx.finding(WR, "maps that are not written", "write() leaves without calling the library writer under a condition on the voxel values "
+                            f"({tm.show((early[0].guards if early else guarded)[-1])[:80]}): for such a map no file is written (a file already standing under the name keeps "
+                            "its old voxels) and read() does not return what was written", nd_, mw)
             if ev.name.split(".")[0] != FAMILY[ext]:
                 ctx.finding(WR, ev.node, f"a .{ext} file must be written with {FAMILY[ext]}", ev.node, mw)
             nm_ = ev.kwargs.get("name") or ev.kwargs.get("path") or ev.arg(0)  # mrcfile.write(name=...), emfile.write(path=...), or first positional
@@ -96,7 +131,7 @@ def o111(ctx):
                             f"existing file unless asked) then applies to that file; it is given {tm.show(to_term(nm_))[:60] if nm_ is not None else None}",
                             ev.node, mw)
             d = ev.kwargs.get("data") or ev.arg(1)
-            t = to_term(d)
+            t = _norm_casts(to_term(d))
             ps = perms_in(t)
             want = [(2, 1, 0)] if tr else []
             if ps != want:
@@ -347,4 +382,4 @@ def _obligations():
 
 
 def obligations():
-    return _obligations() + [labels_obligation("C11"), selectors_obligation("C11"), effects_obligation("C11"), plumbing_obligation("C11"), overrides_obligation("C11"), options_obligation("C11"), handlers_obligation("C11")]
+    return _obligations() + [labels_obligation("C11"), selectors_obligation("C11"), mutations_obligation("C11"), effects_obligation("C11"), plumbing_obligation("C11"), overrides_obligation("C11"), options_obligation("C11"), handlers_obligation("C11")]
